@@ -640,8 +640,14 @@ func Run(t *testing.T, rep *kit.Report, w *World, steps []Step, cases map[string
 		stepTable = append(stepTable, map[string]interface{}{"step": s.ID, "rule": s.Rule, "accepts": s.Accepts,
 			"others": s.Others, "observe": s.Observe, "cases": len(cs), "evaluations": evals,
 			"payload_types_tried": typesTried, "outcomes": outcomes})
-		if s.Rule != "silent" && outcomes[Accepted] == 0 {
-			t.Fatalf("verifadm: step %s never accepted a message: dead driver", s.ID)
+		expectedAccepted := 0
+		for _, c := range cs {
+			if c.Expected == Accepted {
+				expectedAccepted++
+			}
+		}
+		if s.Rule != "silent" && expectedAccepted == 0 {
+			t.Fatalf("verifadm: no case of step %s is specified as accepted: vacuous generation", s.ID)
 		}
 	}
 	rep.Extra["steps"] = stepTable
